@@ -41,6 +41,8 @@ type c25Cluster struct {
 	syncCh     chan<- chan struct{}
 	loopback   bool
 	broadcasts []uint64
+	postsAt    []int         // number of successful POSTs when each broadcast was made
+	nPosts     func() int
 	peers      []*c25Cluster // other nodes' doubles: a broadcast is offered to each
 }
 
@@ -61,8 +63,13 @@ func (c *c25Cluster) offer(v uint64) {
 }
 
 func (c *c25Cluster) BroadcastHighWatermark(v uint64) error {
+	np := 0
+	if c.nPosts != nil {
+		np = c.nPosts()
+	}
 	c.mu.Lock()
 	c.broadcasts = append(c.broadcasts, v)
+	c.postsAt = append(c.postsAt, np)
 	lb := c.loopback
 	peers := c.peers
 	c.mu.Unlock()
@@ -672,6 +679,8 @@ func (g *c25Gen) op() string {
 // ---- history runner ------------------------------------------------------------------------------
 
 type c25Hist struct {
+	broadcasts []uint64
+	postsAt    []int
 	maxHwmIn uint64 // highest HWM broadcast received from "other nodes": they delivered everything up to it
 	ops, out []string
 	batchSz  int
@@ -690,7 +699,7 @@ func c25RunHistory(t *testing.T, root string, hid int, batchSz int, tick time.Du
 	dir := fmt.Sprintf("%s/h%d-%d", root, hid, settleMs)
 	os.MkdirAll(dir, 0o755)
 	defer os.RemoveAll(dir)
-	n := &c25Node{id: 0, dir: dir, batchSz: batchSz, tick: tick, ep: ep, cl: &c25Cluster{}, settleMs: settleMs}
+	n := &c25Node{id: 0, dir: dir, batchSz: batchSz, tick: tick, ep: ep, cl: &c25Cluster{nPosts: ep.nPosts}, settleMs: settleMs}
 	ep.tenure = func(int) int { return n.tenure }
 	n.start(t)
 	defer func() { n.svc.Stop() }()
@@ -727,6 +736,10 @@ func c25RunHistory(t *testing.T, root string, hid int, batchSz int, tick time.Du
 		h.out = append(h.out, o)
 	}
 	h.fed = n.log
+	n.cl.mu.Lock()
+	h.broadcasts = append([]uint64(nil), n.cl.broadcasts...)
+	h.postsAt = append([]int(nil), n.cl.postsAt...)
+	n.cl.mu.Unlock()
 	ep.mu.Lock()
 	h.posts = append([]c25Post(nil), ep.posts...)
 	ep.mu.Unlock()
@@ -781,6 +794,37 @@ func c25Judge(rep *vfReport, h *c25Hist, mode string) (lost, mislabelled int) {
 			}
 		}
 	}
+	// a HWM broadcast promises that everything at or below it has been delivered
+	seenB := map[uint64]bool{}
+	for bi, hv := range h.broadcasts {
+		if seenB[hv] {
+			continue
+		}
+		seenB[hv] = true
+		done := map[string]bool{}
+		for _, p := range h.posts[:h.postsAt[bi]] {
+			for _, g := range p.groups {
+				for _, c := range g.chg {
+					done[c] = true
+				}
+			}
+		}
+		for _, e := range h.fed {
+			if e.idx > hv || e.idx <= h.maxHwmIn {
+				continue
+			}
+			for j, rows := range e.stmts {
+				if rows > 0 && !done[fmt.Sprintf("%d.%d", e.idx, j)] {
+					class := "single-group-entry"
+					if !e.tx && e.groups() > 1 {
+						class = "multi-statement-non-tx-entry"
+					}
+					rep.Fail(mode+"broadcast:hwm-at-or-above-an-undelivered-change:"+class,
+						fmt.Sprintf("this node broadcast HWM %d when change %d.%d had not reached the endpoint", hv, e.idx, j), replay)
+				}
+			}
+		}
+	}
 	// order within a tenure
 	last := map[[2]int]uint64{}
 	for _, p := range h.posts {
@@ -821,25 +865,37 @@ func TestVerifC25(t *testing.T) {
 	var segOps, segImpl [][]string
 
 	directed := []struct {
-		b   int
-		ops []string
+		b    int
+		ops  []string
+		tick bool
 	}{
+		// restart sets the HWM to (first FIFO key - 1): entries 5 and 6 share the item keyed 6
+		{2, []string{"entry 5 0 1", "entry 6 0 1", "restart", "endpoint 0", "leader 1", "tick", "endpoint 1", "timer"}, true},
 		// the design-pass witness: 3-statement non-transactional request
-		{1, []string{"leader 1", "entry 77 0 1,1,1", "timer"}},
-		{3, []string{"leader 1", "entry 77 0 1,1,1", "timer"}},
-		{2, []string{"leader 1", "entry 5 0 1", "entry 77 0 1,1,1", "timer"}},
-		{2, []string{"entry 5 1 1,2", "entry 6 0 0,1,0,1", "sync", "restart", "leader 1", "timer"}},
+		{1, []string{"leader 1", "entry 77 0 1,1,1", "timer"}, false},
+		{3, []string{"leader 1", "entry 77 0 1,1,1", "timer"}, false},
+		{2, []string{"leader 1", "entry 5 0 1", "entry 77 0 1,1,1", "timer"}, false},
+		{2, []string{"entry 5 1 1,2", "entry 6 0 0,1,0,1", "sync", "restart", "leader 1", "timer"}, false},
 		// leader loses leadership while retrying
-		{1, []string{"leader 1", "endpoint 0", "entry 5 0 1", "entry 6 0 1", "leader 0", "endpoint 1", "leader 1", "timer"}},
+		{1, []string{"leader 1", "endpoint 0", "entry 5 0 1", "entry 6 0 1", "leader 0", "endpoint 1", "leader 1", "timer"}, false},
 	}
 	hists := vfScale(60, 1500)
+	tStart := time.Now()
+	budget := time.Duration(vfScale(120, 1200)) * time.Second // time-box: the machine may be shared
 	for i := 0; i < len(directed)+hists; i++ {
+		if i >= len(directed) && time.Since(tStart) > budget {
+			rep.Note("stopped after %d generated histories: time budget of %s used", i-len(directed), budget)
+			break
+		}
 		var ops []string
 		b := 1 + r.Intn(4)
 		tick := time.Hour
 		g := &c25Gen{r: r, up: true}
 		if i < len(directed) {
 			b, ops = directed[i].b, directed[i].ops
+			if directed[i].tick {
+				tick = 2 * time.Millisecond
+			}
 		} else {
 			switch i % 4 {
 			case 0:
